@@ -76,11 +76,19 @@ func coerceToNumeric(v float64) float64 {
 	return v
 }
 
+// maxPreallocatedBatch bounds the memory reserved for a batch up front: metrics-per-batch is a limit on
+// the batch size, a very large value must not be allocated before there are that many metrics.
+const maxPreallocatedBatch = 10000
+
+func batchCapacity(metricsPerBatch uint) uint {
+	return min(metricsPerBatch, maxPreallocatedBatch)
+}
+
 func (f *flush) maybeFlush() {
 	if uint(len(f.ts.Series))+20 >= f.metricsPerBatch { // flush before it reaches max size and grows the slice
 		f.cb(f.ts)
 		f.ts = &timeSeries{
-			Series: make([]metric, 0, f.metricsPerBatch),
+			Series: make([]metric, 0, batchCapacity(f.metricsPerBatch)),
 		}
 	}
 }
